@@ -1,22 +1,23 @@
 (** C04: the abstract swarm's complete-session step (both ends := join) is what the proved
     reconciliation protocol computes: a swarm whose replicas are sorted lists, whose writes go
-    through the ordered-map insert and whose sessions are real [list_session] runs (split factor 2)
+    through the ordered-map insert and whose sessions are real [list_session] runs (any split factor)
     is, replica by replica, set-equal to the abstract swarm at every step. Hence the convergence
     theorem holds for it. *)
 From Coq Require Import Lia Sorted PeanoNat.
 From ID Require Import Base.Bytes Base.BytesFacts Model.Entry Model.Put Model.Tables Model.Bounds
   Model.FsStore Model.Replica Model.Ranger Proofs.EntryFacts Proofs.PutFacts Proofs.RangerFacts
   Proofs.FsPutFacts Proofs.ConvergeFacts Proofs.SplitFacts Proofs.SessionConverge Proofs.TerminateFacts
-  Proofs.SwarmFacts.
+  Proofs.SwarmFacts Proofs.RangeFacts Proofs.RefineFacts Proofs.TerminateAll.
 
 Local Open Scope nat_scope.
 
 Section Real.
-  Variables (mss : N) (v : entry -> N -> bool).
+  Variables (mss kf : N) (v : entry -> N -> bool).
+  Hypothesis K2 : (2 <= kf)%N.
 
   (** a real session; if it did not complete the replicas would stay as they are *)
   Definition rsync (A B : list entry) : list entry * list entry :=
-    match list_session mss 2 v (length A + length B + 3) A B (initial_message om_ops A) true [] with
+    match list_session mss kf v (steps_bound A B) A B (initial_message om_ops A) true [] with
     | Some (A', B', _) => (A', B')
     | None => (A, B)
     end.
@@ -94,7 +95,7 @@ Section Real.
     assert (SUB : forall x, In x (RA ++ RB) -> In x U) by (intros x Hx; apply in_app_or in Hx; destruct Hx; auto).
     assert (C : consistent (RA ++ RB)) by (apply (consistent_incl U); auto).
     assert (V : forall e, In e (RA ++ RB) -> v e MISSING = true) by (intros e He; apply Uvalid; auto).
-    destruct (list_session_total mss v RA RB SA SB RA' RB' C V) as (A' & B' & tr & RUN & _ & JA & JB & SA' & SB').
+    destruct (list_session_total_all mss kf v RA RB K2 SA SB RA' RB' C V) as (A' & B' & tr & RUN & JA & JB & SA' & SB').
     unfold rsync. rewrite RUN.
     assert (JE : set_eq (join RA RB) (join A B)).
     { unfold join. apply reduce_ext. intros x. rewrite !in_app_iff, (HA x), (HB x). tauto. }
